@@ -2,7 +2,7 @@
    Instances of EmitHOSim.ho_simulation with the transcribed operators / built-ins (EmitHOOps.v),
    and the corollaries: emission equivalence for closures capturing closures to any depth,
    re-emission chains, first-order results are EQUAL, function results are RELATED; and the
-   refutation of the statement without the function-equality exclusion (finding F52). *)
+   refutation of the statement without the function-equality exclusion (finding F53). *)
 From Coq Require Import String Ascii List ZArith Bool Lia.
 Require Import Blots.Num Blots.gen.Builtins Blots.Ast Blots.Value Blots.Outcome Blots.Binop
                Blots.Env Blots.Eval Blots.Emit Blots.BuiltinsHof Blots.Program Blots.EvalInst Blots.EvalFull
@@ -170,7 +170,7 @@ Proof.
   split; [reflexivity|]. split; apply reload_rel; assumption.
 Qed.
 
-(* ---- F52: Value::equals on functions ignores captured values and looks at the body text ----
+(* ---- F53: Value::equals on functions ignores captured values and looks at the body text ----
    mk = a => (y => y + a); k1 = mk(1); k2 = mk(2); f = x => k1 == k2
    f(0) is true (same parameter list, same body AST `y + a`); the emission is
    (x) => ((y) => y + 1) == ((y) => y + 2), whose reloaded form returns false. *)
